@@ -76,13 +76,15 @@ ChanSend(cs, ch, msg, r, pos, t, out) ==
   IF cs.busy
   THEN IF PolicyOf[ch] = "drop" THEN <<cs, out>>
        ELSE IF LimitOf[ch] >= 0 /\ cs.acc + BytesOf[msg.size] > LimitOf[ch] THEN <<cs, out>>
-       ELSE <<[cs EXCEPT !.q = Append(@, [msg |-> msg, r |-> r, pos |-> pos]), !.acc = @ + BytesOf[msg.size]], out>>
+       ELSE <<[cs EXCEPT !.q = Append(@, [msg |-> msg, r |-> r, pos |-> pos]), !.acc = @ + BytesOf[msg.size],
+                         !.accs = IF msg.id \in {@[i] : i \in 1..Len(@)} THEN @ ELSE Append(@, msg.id)], out>>
   ELSE LET tx == TxOf[ch][msg.size]
            (* the transmission starts: what a ChannelProbe sees (pseudo event, routed into the log by Flush) *)
            o0 == Append(out, <<[k |-> "tx", ch |-> ch, id |-> msg.id], t>>)
            o1 == IF tx # 0 THEN Append(o0, <<[k |-> "unbusy", ch |-> ch], t + tx>>) ELSE o0
            o2 == Append(o1, <<[k |-> "exit", r |-> r, pos |-> pos, msg |-> msg], t + tx + LatOf[ch]>>) IN
-       <<[cs EXCEPT !.busy = (tx # 0), !.until = IF tx # 0 THEN t + tx ELSE 0], o2>>
+       <<[cs EXCEPT !.busy = (tx # 0), !.until = IF tx # 0 THEN t + tx ELSE 0,
+                    !.accs = IF msg.id \in {@[i] : i \in 1..Len(@)} THEN @ ELSE Append(@, msg.id)], o2>>
 
 (* MessageExitingConnection::handle_with_sink: the message is at hop `pos` of route r (0 = start gate) *)
 (* returns <<chan', out'>>                                                                              *)
@@ -226,7 +228,7 @@ InjectAll(W, i) ==
 Init == /\ now = 0
         /\ LET W == InjectAll([fes |-> {}, seq |-> 0], 1) IN fes = W.fes /\ seq = W.seq
         /\ active = [m \in ModSet |-> TRUE] /\ inc = [m \in ModSet |-> 1] /\ err = {} /\ dead = [m \in ModSet |-> "no"]
-        /\ chan = [c \in Chans |-> [busy |-> FALSE, until |-> 0, q |-> <<>>, acc |-> 0]]
+        /\ chan = [c \in Chans |-> [busy |-> FALSE, until |-> 0, q |-> <<>>, acc |-> 0, accs |-> <<>>, dlv |-> <<>>]]
         /\ nextMsg = 1 /\ ninv = 0 /\ scripts = [m \in ModSet |-> <<>>] /\ catching = Catch
         /\ log = <<>> /\ phase = "boot" /\ boot = <<0, 1>>
         /\ scn \in (IF ReplayScripts = <<>> THEN {0} ELSE 1..Len(ReplayScripts))
@@ -276,7 +278,10 @@ Step ==
           /\ Commit(Flush([W0 EXCEPT !.chan = [@ EXCEPT ![e.ev.ch] = res[1]]], e.t, res[2]))
           /\ UNCHANGED <<inc, err, dead, ninv, scripts, phase, boot, catching, scn>>
         ELSE IF e.ev.k = "exit" THEN
-          LET res == Walk(W0.chan, W0.active, e.ev.msg, e.ev.r, e.ev.pos, e.t, <<>>) IN
+          LET (* the message leaves the channel of the hop it has just crossed *)
+              cin == IF e.ev.pos >= 1 THEN Route[e.ev.r][e.ev.pos].ch ELSE 0
+              ch0 == IF cin # 0 THEN [W0.chan EXCEPT ![cin].dlv = Append(@, e.ev.msg.id)] ELSE W0.chan
+              res == Walk(ch0, W0.active, e.ev.msg, e.ev.r, e.ev.pos, e.t, <<>>) IN
           /\ Commit(Flush([W0 EXCEPT !.chan = res[1]], e.t, res[2]))
           /\ UNCHANGED <<inc, err, dead, ninv, scripts, phase, boot, catching, scn>>
         ELSE IF e.ev.k = "msg" THEN
@@ -333,6 +338,9 @@ SumBytes(q) == IF q = <<>> THEN 0 ELSE BytesOf[q[1].msg.size] + SumBytes(Tail(q)
 AccIsSum == \A ch \in Chans : chan[ch].acc = SumBytes(chan[ch].q)
 QueueWithinLimit == \A ch \in Chans : LimitOf[ch] >= 0 => chan[ch].acc <= LimitOf[ch]
 NoDuplicates == \A ch \in Chans : InFlight(ch) \cap Queued(ch) = {}
+(* with zero jitter deliveries preserve offer order: what has left a channel is a prefix of what it accepted, in that order *)
+IsPrefixOf(a, b) == Len(a) <= Len(b) /\ \A i \in 1..Len(a) : a[i] = b[i]
+OfferOrder == \A ch \in Chans : IsPrefixOf(chan[ch].dlv, chan[ch].accs)
 (* ---- C09: an inactive module runs nothing; ---- C02: time never decreases *)
 (* ---- C13: a module that panicked stays deactivated ...                                              *)
 PanickedInert == \A m \in ModSet : dead[m] # "no" => ~active[m]
